@@ -47,6 +47,11 @@ def programs():
         [['v', 'int', 0], ['cv', 'bool', 0]], ['default', 'element', 'element-renamed'])
     add('element-form-on-error', root('a', el('p', 'x', I('L(0)'), omit='', ns_element=True, onerror=['text', py("'E'")]), 'z'),
         [[0, 'out3', 0]], ['default', 'element', 'element-renamed'])
+    # an element in a language namespace never writes its tag, whatever an omit-tag expression on it says
+    add('element-form-omit-expression', root('a', el('block', 'x', I('v'), omit=py('ov'), ns_element=True, keep_omit=True), 'z',
+                                             el('k', 'y', omit=py('ov'), ns_element=True, keep_omit=True,
+                                                content=['text', py('v')])),
+        [['v', 'int', 0], ['ov', 'bool', 0]], ['element', 'element-renamed'])
     # the option alone must leave ordinary data-* attributes (and prefixed statements) alone
     add('data-option-with-prefixed-statements', root(el('p', 'x', static=[['data-a-b', 'q'], ['class', 'c']],
                                                         content=['text', py('v')], attributes=[['id', py('v')]])),
